@@ -41,12 +41,31 @@
             (else (cons (caar lsts) (apply append (cdar lsts) (cdr lsts))))))
 
 
-        (define (map proc list)
+        (define (map1 proc list)
             (if (pair? list)
-                (cons (proc (car list)) (map proc (cdr list)))
+                (cons (proc (car list)) (map1 proc (cdr list)))
                 list
             )
         )
+
+        ;;;;    #t when one of the lists is exhausted
+        (define (any-exhausted? lists)
+            (cond
+                ((null? lists) #f)
+                ((pair? (car lists)) (any-exhausted? (cdr lists)))
+                (else #t)))
+
+        ;;;;    map over several lists stops with the shortest one (r7rs 6.10)
+        (define (map-n proc lists)
+            (if (any-exhausted? lists)
+                '()
+                (cons (apply proc (map1 car lists))
+                      (map-n proc (map1 cdr lists)))))
+
+        (define (map proc list . lists)
+            (if (null? lists)
+                (map1 proc list)
+                (map-n proc (cons list lists))))
 
         (define filter
             (lambda (pred lst)
@@ -55,9 +74,21 @@
                     (else (filterb pred (cdr lst))))))
 
 
-        (define (for-each proc list)
+        (define (for-each1 proc list)
             (if (pair? list)
-                ((lambda () (proc (car list)) (for-each proc (cdr list))))))
+                ((lambda () (proc (car list)) (for-each1 proc (cdr list))))))
+
+        (define (for-each-n proc lists)
+            (if (any-exhausted? lists)
+                '()
+                ((lambda ()
+                    (apply proc (map1 car lists))
+                    (for-each-n proc (map1 cdr lists))))))
+
+        (define (for-each proc list . lists)
+            (if (null? lists)
+                (for-each1 proc list)
+                (for-each-n proc (cons list lists))))
 
         (define (fold-left f init seq)
             (if (null? seq)
